@@ -167,6 +167,33 @@ def fmtQuery (ws : List String) : String :=
     | _, _, _ => "P fq parse"
   | _ => "P fq parse"
 
+def hexU8 (l : List UInt8) : String := if l.isEmpty then "-" else hexBytes (ByteArray.mk l.toArray)
+
+/-- `cells n defined r0 r1 c0 c1 cap`: the four accessors on every (row, col) of the table of the last call -/
+def cellsQuery (s : St) (ws : List String) : List String :=
+  match ws.map String.toInt? with
+  | [some n, some d, some r0, some r1, some c0, some c1, some cap] =>
+    let t : Option Table := if d == 1 then some (s.inst.views.tab n) else none
+    let cap := cap.toNat
+    let api := match t with | some t => t.rowCountAPI | none => 0
+    let cols := match t with | some t => t.colCount | none => 0
+    let rows := (List.range (r1 - r0 + 1).toNat).map fun (i : Nat) => r0 + (i : Int)
+    let colsL := (List.range (c1 - c0 + 1).toNat).map fun (i : Nat) => c0 + (i : Int)
+    [s!"P K {n} {api} {rowCountF api} {cols}"] ++
+    rows.flatMap fun r => colsL.map fun c =>
+      let (code, v) := getOpt t r c
+      let (codeF, vF) := getOptF t r (c + 1)
+      let agree := if codeF == code && vF == v then "1" else "0"
+      let dh := match dvalReported v with | some b => hex64 b | none => "-"
+      let (s2, sf) := match v with
+        | .str x => (hexU8 (strncpyView cap x.toUTF8.toList),
+                     let p := padF cap x.toUTF8.toList; s!"{hexU8 p.1}:{p.2}")
+        | .long _ => ("num", "num")
+        | .double _ => ("num", "num")
+        | _ => ("untouched", "untouched")
+      s!"P C {r} {c} {code} {Driver.SelOut.showVar v} {vtypeReported v} {dh} {s2} {sf} {agree}"
+  | _ => ["P cells parse"]
+
 def run : IO Unit := do
   let lines ← readLines (← IO.getStdin)
   let out ← IO.getStdout
@@ -185,6 +212,8 @@ def run : IO Unit := do
     else if t == "sk endcall" then
       out.putStrLn ("P sk" ++ String.join (s.skAcc.map fun k => " " ++ showSk k))
       s := { s with so := s.so.closeAll, skAcc := [] }
+    else if t.startsWith "cells " then
+      for r in cellsQuery s ((words t).drop 1) do out.putStrLn r
     else if t.startsWith "fq " then
       out.putStrLn (fmtQuery ((words t).drop 1))
     else
